@@ -23,6 +23,7 @@ from ..core import REPO, AnalysisError, Ctx
 from ..pyfacts import EnumMember, NotConst, PyEval, PyProgram, Term, attr_chain, unparse
 from ..rsfacts import NotConst as RsNotConst
 from ..rsfacts import RsInterp, RustProgram, expr_text, walk
+from ..rules import key_of
 
 LEVEL = "other"
 EXPLANATION = (
@@ -147,6 +148,7 @@ def run(ctx: Ctx) -> None:
     snapshot_masks(ctx, py, rs)
     stepper_pairing(ctx, py)
     flag_api_and_snapshot_masks(ctx, py)
+    snapshot_blob(ctx, py, rs)
     ctx.extra["exhaustive"] = True
 
 
@@ -370,3 +372,23 @@ def _enclosing_text(fn: ast.FunctionDef, node: ast.AST) -> str:
         if isinstance(st, (ast.Assign, ast.AugAssign, ast.For, ast.DictComp)) and any(x is node for x in ast.walk(st)):
             return unparse(st)
     return ""
+
+
+def snapshot_blob(ctx: Ctx, py: PyProgram, rs: RustProgram) -> None:
+    """Register values survive the snapshot blob: (a) the packed layout and its little-endian pack/unpack pairs (rule shared with C16);
+    (b) the Rust restore writes every layout register *whole*, through the name looked up from the layout - a restore through
+    sub-registers is not the identity (writing IL clears IH)."""
+    from .c16 import layout
+    layout(ctx, py, rs)
+    fn = rs.fn(isa.LIB_RS, "apply_registers")
+    n = 0
+    loops = [l for l in walk(fn.body) if l.get("k") == "for" and "SNAPSHOT_REGISTER_LAYOUT" in expr_text(l["iter"])]
+    ctx.need(len(loops) == 1, "apply_registers: loop over SNAPSHOT_REGISTER_LAYOUT not found")
+    for c in walk(loops[0]["body"]):
+        if c.get("k") == "mcall" and c["m"] == "set_reg" and c["args"]:
+            n += 1
+            a0 = c["args"][0]
+            if a0.get("k") == "path" and a0["p"].startswith("RegName::"):
+                ctx.violation("C08.4/snapshot-apply", key_of(fn.file, fn.qual, "layout register restored through a named sub-register"),
+                              f"apply_registers writes `{expr_text(c)[:70]}` inside the layout loop: restoring a 16-bit pair through its halves is not the identity on the register file (a write to IL clears IH, so I comes back without its high byte)", f"{fn.file}:{c['ln']}")
+    ctx.instance("C08.4/rust-snapshot-apply", "set_reg calls of apply_registers' layout loop write the register named by the layout, whole", n, 1)
